@@ -253,7 +253,7 @@ def write_lean(fields, curves, enums, out_path):
     L.append("]\n")
     L.append("end Relic.Gen.Params")
     os.makedirs(os.path.dirname(out_path), exist_ok=True)
-    open(out_path, "w").write("\n".join(L) + "\n")
+    __import__("relicbuild").write_if_changed(out_path, "\n".join(L) + "\n")
 
 
 def bn_p(x):
@@ -298,7 +298,7 @@ def write_certs(ns, out_path):
          "import RelicVerif.Model.Pratt", "", "namespace Relic.Gen.Certs", "open Relic.Model.Pratt", "", "def lines : List Line := ["]
     L.append(",\n".join("  { n := %d, a := %d, fs := [%s] }" % (n, a, ", ".join("(%d, %d)" % (q, e) for q, e in fs)) for n, a, fs in lines))
     L += ["]", "", "end Relic.Gen.Certs"]
-    open(out_path, "w").write("\n".join(L) + "\n")
+    __import__("relicbuild").write_if_changed(out_path, "\n".join(L) + "\n")
     return failures
 
 
